@@ -15,6 +15,17 @@ T = TypeVar("T")
 __all__ = ["HookFunction", "HookHost", "Hook", "root_hooks"]
 
 
+def _all_finite(value) -> bool:
+    """Whether all numbers in ``value`` are finite; non-numeric values count as finite."""
+    try:
+        return bool(np.isfinite(value).all())
+    except TypeError:
+        return True  # only numeric types can be tested for finiteness, for others it is meaningless
+    except ValueError:
+        # ragged sequences (e.g. a list of arrays of different lengths) can not be converted to one array
+        return all(_all_finite(v) for v in value)
+
+
 class HookFunction:
     """
     Class wrapping a function used to yield the value of hooks.
@@ -215,11 +226,8 @@ class Hook(Generic[T]):
         if result is None:
             raise AttributeError(f"Hook call for '{self.name}' on '{instance}' could not provide a value.")
 
-        try:
-            if not np.isfinite(result).all():
-                raise ValueError(f"Hook call for '{self.name}' on '{instance}' resulted in an infinite value.")
-        except TypeError:
-            pass  # only numeric types can be tested for finiteness, for others it is meaningless
+        if not _all_finite(result):
+            raise ValueError(f"Hook call for '{self.name}' on '{instance}' resulted in an infinite value.")
 
         instance.__cache__[self.name] = result
 
